@@ -1,0 +1,14 @@
+//go:build verif
+
+package engine
+
+import "github.com/jmeaster30/vore/libvore/bytecode"
+
+// VerifStep, when set, is called once per executed search instruction.
+var VerifStep func(pc int, inst bytecode.SearchInstruction, backtrackDepth int, callDepth int, loopDepth int)
+
+func verifStep(state *SearchEngineState, inst bytecode.SearchInstruction) {
+	if VerifStep != nil {
+		VerifStep(state.programCounter, inst, int(state.backtrack.Size()), int(state.callStack.Size()), int(state.loopStack.Size()))
+	}
+}
